@@ -60,7 +60,7 @@ var propConfigs = map[string]propConfig{
 		Bound: "struct shapes Rec, Deep (24 seeded random record sets each) and six small chain shapes (replay/shapes, 40 sets each) (1..60 records; every pointer nil one time in three, lists of length 0..3 and occasionally 9..17 at every nesting level, extreme values): the repetition level, definition level and PLAIN value of every entry of every column, decoded from the written file by the independent parser, compared with an independent implementation of Dremel striping written from the paper over Go reflection; thorough tier: 480 record sets per shape"}}},
 	"C01": {Gen: true, Bounded: []boundedCheck{{Name: "round-trip", Run: "TestBoundedC01", Module: true,
 		Bound: "struct shapes Rec, Deep, three regression shapes of repaired finding D11 and four shapes of the known findings D10/D12 (replay/shapes, replay/opp; 40 record sets each), 39 resp. 30 resp. 40 seeded random record sets (0..120 records, three sets of 1300 records in pages of 600..2000 records so that level streams hold bit-packed runs beyond 504 values; nil/non-nil optionals and list lengths 0..3/9..17 at every level; min/max integers, +-0, +-Inf, NaN payloads, empty/long/non-UTF8 strings), partitions {one batch, two batches, one record per batch, 1/n3/rest}, page sizes 1,2,3,7,1000, three codecs: records read back and compared entry by entry (floats bit for bit, nil and empty lists alike), Rows(), number of true Next() calls, Error()==nil; every record's slices and strings mutated by the caller right after Add; all records compared only after the last one was scanned; thorough tier: 400 record sets per shape"}}},
-	"C04": {Bounded: []boundedCheck{{Name: "foreign-encodings", Run: "TestBoundedC04", Module: true,
+	"C04": {Gen: true, Bounded: []boundedCheck{{Name: "foreign-encodings", Run: "TestBoundedC04", Module: true,
 		Bound: "60 files (1..700 records of the Rec shape, 1-2 row groups, written with each codec and page sizes 1/3/8/1000) re-encoded by an independent rewriter into another legal encoding of the same content (seeded random: RLE runs of any length >= 1, bit-packed runs of any group count incl. > 63 groups with multi-byte headers, padding bits of the last group set to 1, pages split per column at arbitrary record boundaries, a codec per column, statistics/created_by present or absent); each rewritten file is first accepted by the independent checker and decoded back to the same columns, then read with the generated reader and compared record by record; thorough tier: 600 files"},
 		{Name: "level-decoder-foreign-encodings", PkgRel: "internal/rle", File: "replay/rle_bounded_test.go.txt", Run: "TestBoundedC07",
 			Bound: "the library's level decoder against an independent specification decoder on foreign legal encodings (bound as stated for C07)"}}},
